@@ -108,7 +108,7 @@ def eval_daily(cfg, check_f18a=False):
             res.fail("thfc_adj_not_fc_far_above_table" + sfx, "step %d compartment %d (centre %.3f m, table %.3f m): adjusted field capacity %.9g != field capacity %.4g" % (
                 i, c, mid[c], z, adj[c], p["th_fc"][c]))
             break
-        below = mid >= z - 1e-12
+        below = mid > z + 1e-6      # strictly below (a centre within 1e-6 m of the table is on the boundary: either reading is acceptable)
         if below.any():
             inside_any = True
             d = np.abs(th_end[i] - p["th_s"])[below]
